@@ -125,6 +125,37 @@ SLUNITS = {'EntityWithMetadataHDF5_metadata_set': dict(file='backend/hdf5/Entity
            'SectionHDF5_link_set': dict(file='backend/hdf5/SectionHDF5.cpp', locator=r'void\s+SectionHDF5::link\s*\((?=\s*const\s+std::string\s*&)', cls='SectionHDF5', cls_file='backend/hdf5/SectionHDF5.hpp', classes=SLCL,
                                        pre_rules=[section_link_rules], post_rules=[sl_names], inherited_methods=['group', 'file', 'link_none'])}
 SLX = ('int gh_sl_found, gh_sl_target_grp, gh_sl_has_old, gh_sl_key, gh_sl_empty_id, gh_sl_searches, gh_sl_search_key, gh_sl_unlinks, gh_sl_links, gh_sl_link_target, gh_sl_link_after_unlinks, gh_sl_name_ok; Section gh_sl_hit[1];\n')
+def create_mtag_rules(ctx, toks):
+    """hasEntity({ID, ObjectType::DataArray}) -> hasEntity_DataArray(ID);  make_shared<MultiTagHDF5>(file(), block(), GROUP, id, type, name, POSITIONS) -> mk_MultiTagP(GROUP, POSITIONS);
+       g->openGroup(NAME) (one argument: create) -> g->openGroup_create(NAME);  shared_ptr<IMultiTag> -> MultiTagP"""
+    from cxx2c import Tok, P, seq_at, match_close, tokenize, fire, split_args
+    out = []; i = 0
+    def skipq(k):
+        while k and out[k - 1].t in ('std', '::'): k -= 1
+        return k
+    while i < len(toks):
+        t = toks[i]
+        if t.t == 'hasEntity' and toks[i + 1].t == '(' and toks[i + 2].t == '{':
+            e = match_close(toks, i + 2)
+            args = split_args(toks[i + 3:e])
+            out.append(Tok('id', 'hasEntity_DataArray', t.ws)); out.append(P('(', '')); out.extend(args[0]); out.append(P(')', '')); i = e + 2; fire(ctx, 'identity-brace'); continue
+        if t.t == 'make_shared' and toks[i + 1].t == '<':
+            j = i + 2
+            while toks[j].t != '>': j += 1
+            e = match_close(toks, j + 1)
+            args = split_args(toks[j + 2:e])
+            k = skipq(len(out)); ws = out[k].ws if k < len(out) else t.ws; del out[k:]
+            out.extend(tokenize('%smk_MultiTagP(' % ws)); out.extend(args[2]); out.append(P(',', '')); out.extend(args[6]); out.append(P(')', '')); i = e + 1; fire(ctx, 'make-shared'); continue
+        if t.t == 'openGroup' and toks[i + 1].t == '(':
+            e = match_close(toks, i + 1)
+            if len(split_args(toks[i + 2:e])) == 1:
+                out.append(Tok('id', 'openGroup_create', t.ws)); i += 1; continue
+        out.append(t); i += 1
+    return out
+CMUNITS = {'BlockHDF5_createMultiTag': dict(file='backend/hdf5/BlockHDF5.cpp', locator=r'shared_ptr<IMultiTag>\s+BlockHDF5::createMultiTag\s*\(', cls='BlockHDF5', cls_file='backend/hdf5/BlockHDF5.hpp',
+    classes=['BlockHDF5', 'H5Group', 'DataArray', 'nstring', 'MultiTagP'], pre_rules=[create_mtag_rules], member_functors={'multi_tag_group': 'BlockHDF5_multi_tag_group'}, inherited_methods=['hasEntity_DataArray'],
+    subst={'shared_ptr<IMultiTag>': 'MultiTagP'}, ret_default='(MultiTagP){1}')}
+CMX = 'int gh_cm_in_block, gh_cm_groups_created, gh_cm_objects, gh_cm_asked_id, gh_cm_created_name;\n'
 MT = 'backend/hdf5/MultiTagHDF5.cpp'; MTH = 'backend/hdf5/MultiTagHDF5.hpp'
 RLCL = ['MultiTagHDF5', 'H5Group', 'DataArrayP', 'nstring']
 RUNITS = {'MultiTagHDF5_positions_set': dict(file=MT, locator=r'void\s+MultiTagHDF5::positions\s*\((?=\s*const\s+std::string\s*&)', cls='MultiTagHDF5', cls_file=MTH, classes=RLCL, pre_rules=[relink_rules],
@@ -132,7 +163,8 @@ RUNITS = {'MultiTagHDF5_positions_set': dict(file=MT, locator=r'void\s+MultiTagH
           'MultiTagHDF5_extents_set': dict(file=MT, locator=r'void\s+MultiTagHDF5::extents\s*\((?=\s*const\s+std::string\s*&)', cls='MultiTagHDF5', cls_file=MTH, classes=RLCL, pre_rules=[relink_rules],
                                             inherited_methods=['group', 'forceUpdatedAt', 'getArrayEntity'], member_calls={'positions': 'MultiTagHDF5_positions', 'checkDimensions': 'MultiTagHDF5_checkDimensions'})}
 RLX = ('int gh_rl_found, gh_rl_target_grp, gh_rl_target_shape, gh_rl_pos_shape, gh_rl_has_old, gh_rl_removes, gh_rl_links, gh_rl_link_target, gh_rl_link_after_removes, gh_rl_updates, gh_rl_name_ok, gh_rl_remove_name_ok;\n')
-UNITS.update(RUNITS); UNITS.update(SLUNITS)
+UNITS.update(RUNITS); UNITS.update(SLUNITS); UNITS.update(CMUNITS)
 JOBS = JOBS + [dict(name=fn, bodies=[fn], enforce=[fn], replace=[], includes=['c08_relink.h'], extra_c=RLX, defines=['RL_NAME="%s"' % ('positions' if 'positions' in fn else 'extents')], expect_kinds=['postcondition'], timeout=300) for fn in RUNITS]
 JOBS = JOBS + [dict(name=fn, bodies=[fn], enforce=[fn], replace=[], includes=['c08_relink.h'], extra_c=RLX + SLX, defines=['RL_NAME="%s"' % ('metadata' if 'metadata' in fn else 'link')], expect_kinds=['postcondition'], timeout=300) for fn in SLUNITS]
+JOBS = JOBS + [dict(name='BlockHDF5_createMultiTag', bodies=['BlockHDF5_createMultiTag'], enforce=['BlockHDF5_createMultiTag'], replace=[], includes=['c08_relink.h'], extra_c=RLX + SLX + CMX, defines=['RL_NAME="multi_tags"'], expect_kinds=['postcondition'], timeout=300)]
 SPEC = dict(contracts=['nd.h', 'c08_gate.h', 'c14_prop.h', 'c08_relink.h'], stubs=[], include_order=['nd.h', 'c08_gate.h'], units=UNITS, jobs=JOBS, trusted_base=TRUST, assumptions=ASSUME)
